@@ -40,6 +40,9 @@ func init() {
 			src = strings.ReplaceAll(src, "func P()", "func §P()")
 		}
 		p := &Prog{ID: "both", Src: src}
+		if strings.Contains(src, "\n//--\n") {
+			p.Chunks = strings.Split(src, "\n//--\n")
+		}
 		r := fw.NewRun("DBG", "exploration")
 		r.SetMinDistinct(0)
 		e1Gate([]*Prog{p})
